@@ -1,14 +1,17 @@
 // C17: a @transaction request is all-or-nothing and leaves no database
 // transaction or lock behind.
 //
-// E-fault, bounded-exhaustive: every sequence of 1..L operations over ten good
-// operations (insert, update, delete, select, readrows, symbols, drop, sql DML,
-// sql DDL, insert fed by a symbol), alone and with a failure injected at each
-// position by each mechanism (an operation that cannot be applied, an
-// operation the API refuses, an invalid opcode, an error condition that is
-// true / true with user status and message / false / blank / malformed /
-// unevaluable, a commit that a deferred foreign key makes fail). Every request
-// is served by the real router and scripting.Handler against a SQLite file.
+// E-fault, bounded-exhaustive: every sequence of 1..L good operations (insert,
+// update, delete, select, readrows, symbols, drop, sql DML, sql DDL, insert fed
+// by a symbol; see planFor for the alphabet per length), alone and with a
+// failure injected at each position by each mechanism (an operation that cannot
+// be applied, an operation the API refuses, an invalid opcode, an error
+// condition that is true / true with user status and message / false / blank /
+// malformed / unevaluable, a commit that a deferred foreign key makes fail).
+// Every request is served by the real router and scripting.Handler against
+// SQLite: every case on SQLite's shared in-memory VFS, the cases of length
+// <= 2 once more on a database file in WAL mode. Work is split over one worker
+// process per CPU.
 //
 // Oracle (the statement, nothing more): with D0 the database before the
 // request and D* the database a reference connection obtains by applying the
@@ -19,6 +22,10 @@
 // After the handler has returned, every transaction begun on a driver
 // connection must have been ended, and a second connection with
 // busy_timeout=0 must obtain the write lock at once.
+//
+// Experiment switches (never needed for a verdict): VERIF_C17_LEN cuts the
+// plan short, VERIF_C17_PROCS sets the number of workers, VERIF_C17_PROF
+// prints where the time goes.
 package main
 
 import (
